@@ -20,7 +20,7 @@ from hplsim import build, core, gen, monitor
 PROP = 'C12'
 
 TIERS = {
-    'quick': dict(runs=150000, wall=150, max_events=40),
+    'quick': dict(runs=150000, wall=300, max_events=40),
     'thorough': dict(runs=600000, wall=2400, max_events=60),
 }
 
